@@ -500,3 +500,37 @@ def string_char_rule(chk, P, rule, unit_ok):
                        'a plain char from a string is passed to the %s parameter of %s: characters from 128 on are '
                        'sign-extended (dw "\\200" gives C8 FF)' % (wide[0].params[ai]['type'].get('t'), wide[0].name))
     return n
+
+
+def boolean_store_rule(chk, P, rule, unit_ok):
+    """Boolean is an 8-bit typedef: storing a wider value in a Boolean variable
+    keeps only its low byte.  Every implicit narrowing into a Boolean local or
+    parameter must therefore already be a truth value (comparison, logical
+    operation, !, Boolean variable, 0/1)."""
+    from .c12 import boolean_valued
+    n = 0
+    for f in P.all_funcs():
+        if not unit_ok(f.unit.name):
+            continue
+        for b, i, ln, m in f.nodes():
+            tgt = rhs = None
+            if is_assign(m) and m[1] == '=':
+                tgt, rhs = strip(m[2]), m[3]
+            elif m[0] == 'decl' and m[2] is not None:
+                tgt, rhs = ('l', m[1]), m[2]
+            if tgt is None or tgt[0] not in ('l', 'p'):
+                continue
+            t = f.locals.get(tgt[1]) if tgt[0] == 'l' else next((p['type'] for p in f.params if p['name'] == tgt[1]), None)
+            if not t or t.get('t') != 'Boolean':
+                continue
+            r = rhs
+            while isinstance(r, (list, tuple)) and r and r[0] in ('ref', 'cf'):
+                r = r[1]
+            if r[0] == 'cast' and r[1] == 'i' and abs(r[2]) == 8:
+                n += 1
+                ok = boolean_valued(f, r[4])
+                chk.ob(rule, '%s:%s:%s=%s' % (f.unit.name, f.name, tgt[1], show(r[4])[:40]), ok, f.loc(ln),
+                       'truth value' if ok else
+                       'the %d-bit value %s is stored in the 8-bit Boolean %s: only its low byte survives, so a non-zero value '
+                       'that is a multiple of 256 reads as False' % (abs(r[3]), show(r[4]), tgt[1]))
+    return n
